@@ -18,6 +18,9 @@ ASSUMPTIONS = ["ref/xml_tokenizer.json reviewed (snapshot of the code after the 
 
 
 def run(ctx):
+    ctx.rule("R15.13", "no attribute value without a name (xml5ever): see R16.12")
+    from . import tokrules as _tr13
+    ctx.guard("R15.13", "value-without-name", lambda: _tr13.no_value_without_name(ctx, "R15.13", "xml"))
     ctx.rule("R15.12", "= R03.17 / R08.7 for xml5ever's feed()")
     from . import tokrules as _tr12
     ctx.guard("R15.12", "feed/xml", lambda: _tr12.feed_facts(ctx, "R15.12", "xml"))
